@@ -123,8 +123,17 @@ func (p *ProprietaryData) fromKeyPair(keyPair KeyPair) error {
 }
 
 func proprietaryKey(subType uint8, keyData []byte) []byte {
+	return proprietaryKeyWithIdentifier(magicPrefix, subType, keyData)
+}
+
+// proprietaryKeyWithIdentifier builds the key data of a proprietary entry that
+// belongs to the given identifier; an empty identifier means the pset one.
+func proprietaryKeyWithIdentifier(identifier []byte, subType uint8, keyData []byte) []byte {
+	if len(identifier) == 0 {
+		identifier = magicPrefix
+	}
 	s := bufferutil.NewSerializer(nil)
-	s.WriteVarSlice(magicPrefix)
+	s.WriteVarSlice(identifier)
 	s.WriteSlice([]byte{subType})
 	s.WriteSlice(keyData)
 	return s.Bytes()
